@@ -402,7 +402,7 @@ def lfn_slots(long, name11):
 
 def build(ft, bps=512, spc=1, nf=2, rsvd=None, rootent=None, clusters=100, fatsec=None, files=(), root_extra=None,
           fatfill=None, hi_bits=None, bootcode=None, oem=b"FOREIGN ", label=None, backup=True, dirty=False,
-          fat1_bits=None, media=0xF8, extra_sectors=0, backup_bootcode=None):
+          fat1_bits=None, media=0xF8, extra_sectors=0, backup_bootcode=None, fsinfo_hints=None):
     """Independent formatter.  files: list of dicts(path components are built by the caller):
        (long|None, name11, attr, chain, data|slots) for the ROOT directory; sub-directories are given
        as entries with attr 0x10 whose `data` is the raw directory content.
@@ -428,7 +428,8 @@ def build(ft, bps=512, spc=1, nf=2, rsvd=None, rootent=None, clusters=100, fatse
         img[len(h):len(h) + len(bootcode)] = bootcode[:510 - len(h)]
     img[510:512] = b"\x55\xaa"
     if ft == 32:
-        fsi = struct.pack("<L480xLLL12xL", 0x41615252, 0x61417272, 0xFFFFFFFF, 0xFFFFFFFF, 0xAA550000)
+        fh = fsinfo_hints or (0xFFFFFFFF, 0xFFFFFFFF)       # (free count, next free): "unknown" unless the caller wants real hints
+        fsi = struct.pack("<L480xLLL12xL", 0x41615252, 0x61417272, fh[0], fh[1], 0xAA550000)
         img[bps:bps + 512] = fsi
         if backup:
             img[6 * bps:6 * bps + 512] = img[0:512]
